@@ -618,6 +618,8 @@ package internal
 //@   ensures result == nil ==> (forall j int :: 0 <= j && j < len(lastRefs) ==> lastRefs[j] != nil)                        # name: index-has-no-nil   props: C19 C10
 //@   ensures result == nil ==> (forall j int :: 0 <= j && j < len(lastRefs) - 1 ==> !sameVariantS(lastRefs[j], lastRefs[len(lastRefs)-1].ResponseID, lastRefs[len(lastRefs)-1].VaryResolved))   # name: new-variant-not-duplicated   props: C19
 //@   ensures bodyReadFailed ==> storeWrites == old(storeWrites)                     # name: nothing-written-when-body-unreadable
+//@   ensures result == nil && 0 <= refIndex && refIndex < len(refs) && refs[refIndex] != nil && (forall m int :: 0 <= m && m < len(lastRefs) ==> lastRefs[m].ResponseID != refs[refIndex].ResponseID) ==> deletedKeys[refs[refIndex].ResponseID]    # name: entry-of-a-replaced-reference-is-deleted-when-nothing-refers-to-it   props: C19
+//@   ensures result == nil ==> (forall j int :: 0 <= j && j < len(refs) && refs[j] != nil && j != refIndex && !sameVariantS(refs[j], lastRefs[len(lastRefs)-1].ResponseID, lastRefs[len(lastRefs)-1].VaryResolved) ==> (exists m int :: 0 <= m && m < len(lastRefs) && lastRefs[m] == refs[j]))   # name: other-variants-keep-their-references   props: C08 C19
 
 //@ iface CacheInvalidator.InvalidateCache(ci, reqURL, respHeader, refs, key)
 //@   property C07 C19
@@ -877,18 +879,26 @@ package internal
 //@   pure
 //@   ensures result == (hasArr(m1) == hasArr(m2) && (forall k string :: has(m2, k) ==> get(m1, k) == get(m2, k)))
 //@ func sameVariant
-//@   property C19
+//@   property C19 C08
 //@   pure
 //@   requires a != nil && b != nil
 //@   ensures result == sameVariantS(a, b.ResponseID, b.VaryResolved)            # name: id-and-values
+// the predicate handed to slices.ContainsFunc: a remaining reference uses the replaced reference's ID
+//@ func (*responseStorer).StoreResponse$1
+//@   property C19
+//@   pure
+//@   requires ref != nil && replaced != nil && *replaced != nil
+//@   ensures result == (ref.ResponseID == (*replaced).ResponseID)                                    # name: predicate-is-same-response-id
 //@ func (*responseStorer).StoreResponse
 //@   implements ResponseStorer.StoreResponse
-//@   property C06 C10 C19 C04 C05
+//@   property C06 C10 C19 C04 C05 C08
 //@   requires r != nil && r.cache != nil && r.vhn != nil && r.vk != nil
 //@   loop 0 invariant -1 <= rangeindex && rangeindex < len(refs) && 0 <= len(updated) && len(updated) <= rangeindex + 1
 //@   loop 0 invariant 0 <= refIndex && refIndex <= rangeindex ==> len(updated) <= rangeindex
 //@   loop 0 invariant forall j int :: 0 <= j && j < len(updated) ==> updated[j] != nil && !sameVariantS(updated[j], responseID, varyResolved)
 //@   loop 0 invariant lastSetOK && fresh(updated)
+//@   loop 0 invariant (0 <= refIndex && refIndex <= rangeindex && refs[refIndex] != nil ==> replaced == refs[refIndex]) && (replaced != nil ==> 0 <= refIndex && refIndex <= rangeindex && replaced == refs[refIndex])
+//@   loop 0 invariant forall j int :: 0 <= j && j <= rangeindex && refs[j] != nil && j != refIndex && !sameVariantS(refs[j], responseID, varyResolved) ==> (exists m int :: 0 <= m && m < len(updated) && updated[m] == refs[j])
 //@   ensures result == nil ==> len(lastRefs) > 0 && (forall f string :: has(lastRefs[len(lastRefs)-1].VaryResolved, f) ==> get(lastRefs[len(lastRefs)-1].VaryResolved, f) == normFirst(req.Header, f))   # name: newest-reference-carries-the-requests-resolved-values   props: C04
 
 // maps.Collect: the keys of the result are the keys yielded; the value under a key is the value
